@@ -220,6 +220,33 @@ fn c04_diff<'a, T: DiffableStr + ?Sized>(
     Ok((count, fp.0))
 }
 
+/// The other argument types the constructors accept (String, Cow borrowed / owned, Vec<u8>,
+/// mixed old/new kinds are not possible: one type parameter): same clauses.
+fn c04_argument_types(old: &[u8], new: &[u8]) -> Result<u64, String> {
+    use std::borrow::Cow;
+    let mut n = 0;
+    let run = |name: &str, r: Result<Result<(u64, u64), String>, String>| -> Result<(), String> {
+        r.map_err(|p| format!("arguments of type {}: panic: {}", name, p))?
+            .map_err(|e| format!("arguments of type {}: {}", name, e))
+            .map(|_| ())
+    };
+    for t in [0usize, 2] {
+        let (vo, vn) = (old.to_vec(), new.to_vec());
+        run("Vec<u8>", subject(|| if t == 0 { c04_diff(&TextDiff::from_lines(&vo, &vn), old, new) } else { c04_diff(&TextDiff::from_chars(&vo, &vn), old, new) }))?;
+        let (co, cn): (Cow<[u8]>, Cow<[u8]>) = (Cow::Borrowed(old), Cow::Owned(new.to_vec()));
+        run("Cow<[u8]>", subject(|| if t == 0 { c04_diff(&TextDiff::from_lines(&co, &cn), old, new) } else { c04_diff(&TextDiff::from_chars(&co, &cn), old, new) }))?;
+        n += 2;
+        if let (Ok(a), Ok(b)) = (std::str::from_utf8(old), std::str::from_utf8(new)) {
+            let (so, sn) = (a.to_string(), b.to_string());
+            run("String", subject(|| if t == 0 { c04_diff(&TextDiff::from_lines(&so, &sn), old, new) } else { c04_diff(&TextDiff::from_chars(&so, &sn), old, new) }))?;
+            let (co, cn): (Cow<str>, Cow<str>) = (Cow::Owned(a.to_string()), Cow::Borrowed(b));
+            run("Cow<str>", subject(|| if t == 0 { c04_diff(&TextDiff::from_lines(&co, &cn), old, new) } else { c04_diff(&TextDiff::from_chars(&co, &cn), old, new) }))?;
+            n += 2;
+        }
+    }
+    Ok(n)
+}
+
 pub fn c04_pair(old: &[u8], new: &[u8]) -> Result<(bool, u64, u64, u64), String> {
     let mut total = 0;
     let mut fp = Fp::new();
@@ -229,6 +256,7 @@ pub fn c04_pair(old: &[u8], new: &[u8]) -> Result<(bool, u64, u64, u64), String>
         (Ok(a), Ok(b)) => Some((a, b)),
         _ => None,
     };
+    diffs += c04_argument_types(old, new)?;
     for t in 0..N_TOK {
         if !tokenizer_available(t) {
             continue;
@@ -640,6 +668,7 @@ pub fn c04_run(cfg: &RunCfg) -> CheckReport {
         "every ordered pair of texts made of up to L letters of the listed alphabets (part 'valid': UTF-8 letters incl. LF, CR, combining mark, NBSP, regional indicator; part 'invalid': adds the byte letters FF, C3, E2 82; pairs already covered by the first part are skipped) x 6 constructors (lines, words, chars, unicode words, graphemes, slices of lines-and-newlines tokens) x 3 algorithms x {[u8], str when both texts are UTF-8}. One case = one text pair with all its configurations. Non-trivial: texts differ and some diff has >= 3 changes.",
     );
     rep.assume("oracle: byte-wise concatenation and index discipline; the tokenizers themselves are C06's business");
+    rep.assume("besides &str and &[u8], the line and char constructors are also called with String, Cow<str> (owned / borrowed), Vec<u8> and Cow<[u8]> arguments");
     rep.assume("consumption modes (every iterator also consumed through nth/skip/step_by/take-then-rest/fold/count/last/peekable/find/zip/chain, size_hint a valid bound at every position): iter_all_changes and iter_changes of the first two and the last op; quick tier on text pairs of up to 5 bytes in total, thorough tier on every pair with at most 10 changes");
     run_pairs(cfg, &mut rep, c04_pair);
     rep
